@@ -9,6 +9,7 @@ import struct
 
 from ..astutil import (call_attr, get_arg, iter_calls, iter_stores, propagate, same_expr, single_assign_env,
                        walk_local, const_str)
+from ..exprnf import ExprEval, Poly
 from ..flow import Flow
 from ..index import AnalysisError, AnchorMissing, dotted, norm
 
@@ -990,6 +991,65 @@ def r12_keyed_read_before_write(idx, r):
         r.ok(f"empty-dict:{cs[0].name}.{a}", cs[0].methods["__init__"])
 
 
+# ------------------------------------------------------------------------------------------------
+def r13_banded_scatter(idx, r):
+    """ISOTXS/GAMISO scatter records hold, per row g, a band of columns stored backwards. The writer emits
+    reversed(scatter[g, lo:hi]); the reader must attach the values it reads to exactly the columns hi-1, hi-2, ..., lo
+    (in that order) and read hi-lo of them. Compared as exact polynomials in (g, JJ, JBAND)."""
+    f = idx.method("armi.nuclearDataIO.cccc.isotxs._IsotxsNuclideIO", "_rw7DRecord")
+    if f is None:
+        raise AnchorMissing("_IsotxsNuclideIO._rw7DRecord")
+    branch = next((n for n in walk_local(f.node) if isinstance(n, ast.If) and norm(n.test) in ("scatter is None",) and n.orelse), None)
+    if branch is None:
+        raise AnchorMissing("_rw7DRecord: `if scatter is None: ... else: ...` inside the row loop")
+    par = {}
+    for n in ast.walk(f.node):
+        for ch in ast.iter_child_nodes(n):
+            par[ch] = n
+    body = par[branch].body if hasattr(par[branch], "body") else []
+    E = ExprEval()
+    for st in body:
+        if st is branch:
+            break
+        if isinstance(st, ast.Assign) and len(st.targets) == 1 and isinstance(st.targets[0], ast.Name):
+            E.env[st.targets[0].id] = E.ev(st.value)
+    ext = next((c for st in branch.body for c in ast.walk(st) if isinstance(c, ast.Call) and call_attr(c) == "extend" and c.args and isinstance(c.args[0], ast.Call) and dotted(c.args[0].func) == "range"), None)
+    nread = next((st for st in branch.body if isinstance(st, ast.For) and isinstance(st.iter, ast.Call) and dotted(st.iter.func) == "range" and any(call_attr(c) in RW for c in ast.walk(st) if isinstance(c, ast.Call))), None)
+    wr = next((st for st in branch.orelse if isinstance(st, ast.For)), None)
+    if ext is None or nread is None or wr is None:
+        raise AnalysisError("_rw7DRecord: reader index range / read loop / writer loop not found")
+    it = wr.iter
+    rev = isinstance(it, ast.Call) and dotted(it.func) == "reversed"
+    sl = None
+    for n in ast.walk(it):
+        if isinstance(n, ast.Subscript) and isinstance(n.slice, ast.Tuple) and len(n.slice.elts) == 2 and isinstance(n.slice.elts[1], ast.Slice):
+            sl = n.slice.elts[1]
+    if sl is None or sl.lower is None or sl.upper is None or sl.step is not None:
+        raise AnalysisError(f"_rw7DRecord: writer column slice `{norm(it)[:60]}` outside the fragment")
+    lo, hi = E.ev(sl.lower), E.ev(sl.upper)
+    ra = ext.args[0].args
+    if len(ra) != 3:
+        raise AnalysisError("_rw7DRecord: reader range must have start, stop, step")
+    a, b, stp = E.ev(ra[0]), E.ev(ra[1]), E.ev(ra[2])
+    one = Poly.const(1)
+    if rev:
+        ok = stp == Poly.const(-1) and a == hi - one and b == lo - one
+        want = f"range({hi - one}, {lo - one}, -1)"
+    else:
+        ok = stp == one and a == lo and b == hi
+        want = f"range({lo}, {hi})"
+    r.require(ok, "reader-columns=writer-slice", f, node=ext,
+              msg=f"the writer emits columns {'reversed ' if rev else ''}[{lo} : {hi}) of row g but the reader attaches the values to range({a}, {b}, {stp}); they agree only if "
+                  f"these are equal ({want}) - e.g. only when the in-group position JJ is 1")
+    cnt = E.ev(nread.iter.args[0]) if len(nread.iter.args) == 1 else None
+    r.require(cnt is not None and cnt == hi - lo, "reader-count=writer-count", f, node=nread, msg=f"the reader takes {cnt} values per row, the writer emits {hi - lo}")
+    ip = next((c for st in branch.body for c in ast.walk(st) if isinstance(c, ast.Call) and call_attr(c) == "append" and dotted(c.func.value) == "indptr"), None)
+    if ip is not None:
+        e2 = ExprEval(env=dict(E.env))
+        got = e2.ev(ip.args[0])
+        r.require(got == Poly.atom("len(indices)") + (hi - lo), "row-pointer", f, node=ip, msg=f"the CSR row pointer must advance by the band width: {got}")
+
+
 def run(idx, chk):
     chk.explanation = (
         "C09: static reader/writer agreement for CCCC records: struct formats, byte counters and ASCII field widths of "
@@ -1032,3 +1092,5 @@ def run(idx, chk):
                  necessary="reading returns what was written only if the container is sized from the header that was just read")
     chk.run_rule("R09.12", "no rw* argument indexes a dict that is still empty when the file is being read", lambda r: r12_keyed_read_before_write(idx, r), floor=2,
                  necessary="the same code reads and writes: an argument that can only be evaluated once the data exists makes the file unreadable")
+    chk.run_rule("R09.13", "banded scatter record: the reader's column indices and count per row equal the writer's reversed slice (exact algebra in g, JJ, JBAND)", lambda r: r13_banded_scatter(idx, r), floor=2,
+                 necessary="reader and writer of one record are different branches here; they must address the same matrix entries")
